@@ -195,7 +195,7 @@ def one(ctx, model):
     if not (model[0] == 'beta' and model[1] == 1.0):
         rngm = random.Random(f'c14-matrix-{ctx.seed}-{model}')
         sizes = [1.0] + rngm.sample([0.25, 0.5, 2.0, 3.0, 10.0], 3)
-        nn = rngm.choice([3, 4, 5])
+        nn = rngm.choice([2, 2, 3, 4, 5])
         coal = pg.Coalescent(n=nn, model=conv.make_model(pg, model), parallelize=False, pbar=False,
                              demography=pg.Demography(pop_sizes={'pop_0': {float(i): v for i, v in enumerate(sizes)}}))
         eps_ = list(itertools.islice(coal.demography.epochs, len(sizes)))
